@@ -2,8 +2,10 @@
 (***************************************************************************)
 (* Text carriers: serdes.decode / load / strload (src/typelib/serdes.py).  *)
 (*                                                                         *)
-(* A text input is [c, s]: carrier c in {str, bytes, bytearray, mvb, mvba} *)
-(* (memoryview of bytes / of bytearray) holding text s from a pool.  What  *)
+(* A text input is [c, s]: carrier c in {str, bytes, bytearray, mvb, mvba, *)
+(* mvwin, mvwinba, mvstride} (memoryview of bytes / of a bytearray / of a   *)
+(* window into a larger bytes or bytearray buffer / a strided view)         *)
+(* holding text s from a pool.  What                                        *)
 (* a text means is given by fact tables: Json[s] (the JSON value, or       *)
 (* "notjson"), Literal[s] (whether ast.literal_eval accepts it).           *)
 (*                                                                         *)
@@ -21,12 +23,17 @@ CONSTANTS Texts,          \* pool of texts
           DecodeFirst,    \* TRUE: load() decodes every carrier to str before the memoised strload (current code)
           HandsOutCopy,   \* TRUE: a decoded container is returned as a deep copy of the memo's object (current code);
                           \* FALSE: the memo's own object is returned (pinned snapshot; "shallow" is the same one level down)
+          ViewReads,      \* "view": a memoryview is read through the view itself (current code); "exporter": the object
+                          \* the view was taken from is read instead (right only when the view spans all of it)
+          ReleasesView,   \* TRUE: decoding a memoryview releases it (the caller's object is dead afterwards)
           MaxCalls
 
-Carriers == {"str", "bytes", "bytearray", "mvb", "mvba"}
-Hashable(c) == c \in {"str", "bytes", "mvb"}       \* bytearray and a view of one are unhashable
+Carriers == {"str", "bytes", "bytearray", "mvb", "mvba", "mvwin", "mvwinba", "mvstride"}
+Views == {"mvb", "mvba", "mvwin", "mvwinba", "mvstride"}
+Windowed(c) == c \in {"mvwin", "mvwinba", "mvstride"}   \* the exporting object holds more than the text
+Hashable(c) == c \in {"str", "bytes", "mvb", "mvwin", "mvstride"}   \* bytearray and a view of one are unhashable
 \* cache key equality: bytes and a read-only memoryview of the same bytes compare and hash equal
-KeyOf(c, s) == IF DecodeFirst THEN <<"str", s>> ELSE IF c = "mvb" THEN <<"bytes", s>> ELSE <<c, s>>
+KeyOf(c, s) == IF DecodeFirst THEN <<"str", s>> ELSE IF c \in {"mvb", "mvwin", "mvstride"} THEN <<"bytes", s>> ELSE <<c, s>>
 
 \* what the statement prescribes for load(x): JSON value if JSON; the text itself (as str) if neither JSON nor a
 \* Python literal; unconstrained for Python-literal text (pinned only through carrier-freedom)
@@ -43,16 +50,20 @@ Compute(s) == IF Json[s] # "notjson" THEN [k |-> "val", v |-> Json[s]]
               ELSE IF Literal[s] THEN [k |-> "lit", v |-> s]
               ELSE [k |-> "text", v |-> s]
 
-Init == cache = {} /\ soiled = {} /\ calls = 0 /\ last = [c |-> "-", s |-> "-", out |-> [k |-> "none", v |-> "-"]]
+\* what the implementation gets to see of input [c, s]
+Seen(c, s) == IF ViewReads = "exporter" /\ Windowed(c) THEN [k |-> "foreign", v |-> s] ELSE Compute(s)
+
+Init == cache = {} /\ soiled = {} /\ calls = 0 /\ last = [c |-> "-", s |-> "-", out |-> [k |-> "none", v |-> "-"], alive |-> TRUE]
 
 Load(c, s) ==
   /\ calls < MaxCalls
   /\ calls' = calls + 1
   /\ IF ~DecodeFirst /\ ~Hashable(c)
-     THEN /\ last' = [c |-> c, s |-> s, out |-> [k |-> "raised", v |-> "TypeError"]]   \* lru_cache hashes its argument
+     THEN /\ last' = [c |-> c, s |-> s, out |-> [k |-> "raised", v |-> "TypeError"], alive |-> TRUE]   \* lru_cache hashes its argument
           /\ cache' = cache
      ELSE /\ last' = [c |-> c, s |-> s,                                \* hit or miss: the same value, unless soiled
-                      out |-> IF KeyOf(c, s) \in soiled THEN [k |-> "soiled", v |-> s] ELSE Compute(s)]
+                      out |-> IF KeyOf(c, s) \in soiled THEN [k |-> "soiled", v |-> s] ELSE Seen(c, s),
+                      alive |-> ~(ReleasesView /\ c \in Views)]
           /\ cache' = cache \cup {KeyOf(c, s)}
   /\ soiled' = soiled
 \* the caller modifies the container it was last given (appends to a list, sets a key, also below the top level)
@@ -61,11 +72,20 @@ MutateLast ==
   /\ calls' = calls + 1
   /\ soiled' = IF HandsOutCopy THEN soiled ELSE soiled \cup {KeyOf(last.c, last.s)}
   /\ UNCHANGED <<cache, last>>
-Next == (\E c \in Carriers, s \in Texts : Load(c, s)) \/ MutateLast
+\* the caller hands over the very same object again (a union trying its next member, a retry)
+Again ==
+  /\ calls < MaxCalls /\ last.c # "-"
+  /\ calls' = calls + 1
+  /\ IF last.alive THEN Load(last.c, last.s)!3
+     ELSE last' = [last EXCEPT !.out = [k |-> "raised", v |-> "ValueError"]] /\ cache' = cache
+  /\ soiled' = soiled
+Next == (\E c \in Carriers, s \in Texts : Load(c, s)) \/ MutateLast \/ Again
 Spec == Init /\ [][Next]_vars
 
 \* every carrier of the same text gives the same outcome, whatever was loaded before
 CarrierFree == last.c # "-" => last.out = Compute(last.s)
 LoadAgrees == last.c # "-" => (last.out.k = "raised" \/ LoadRefOK(last.s, last.out))
 NeverRaises == last.out.k # "raised"
+\* the caller's object survives the call
+InputIntact == last.alive
 =============================================================================
